@@ -26,7 +26,7 @@ ASSUMPTIONS = [
     "text codecs: iso-8859-1, utf-8, utf-16-le, utf-32-le as modelled in Model/CodecPrim.v (strict UTF-8/16/32)",
     "Array element types are classes (n_bytes: an instance, as the library returns it); struct members are classes or named instances",
     "EPATH and CIP segment types are property C09, not this one",
-    "StructTag: the theorem covers template layouts (members at increasing non-overlapping offsets of constant width, BOOL members in hidden hosts or padding); other layouts are checked on the implementation only",
+    "StructTag: the theorem covers template layouts (members of constant width at pairwise disjoint offsets in any order, BOOL members in hidden hosts or padding); other layouts are checked on the implementation only",
     "C06_real_precision relies on Proofs/CodecWireFloat.v (property C07's vertical) for the agreement of round32/widen32 with Flocq",
 ]
 
@@ -77,6 +77,44 @@ def check_roundtrip(R, cases, outs):
         else:
             _fail(R, "call did not terminate", cj, o[0], "the value", cls)
         R.count("oracle_outcome", "fail:" + cls)
+
+
+def oracle_prefixed(case, budget=0.5):
+    """Array(<length type>, T): the documented decode.  The count encoded with the length type, then
+    the encoding of the values, then other data -> the values, and exactly those bytes consumed."""
+    import signal
+    from io import BytesIO
+    td, v, rest = case[1], case[2], case[3]
+    T = cc.ty_build(td)
+    L = cc.ty_build(td[2])
+    signal.setitimer(signal.ITIMER_REAL, budget)
+    try:
+        try:
+            bs = bytes(L.encode(len(v))) + bytes(T.encode(v))
+            s = BytesIO(bs + rest)
+            d = T.decode(s)
+            return ("rt", cc.canon(d), s.tell(), len(bs))
+        except cc._Hang:
+            return ("hang",)
+        except Exception as e:
+            return ("decerr", cc.exn_code(e), 0)
+    finally:
+        signal.setitimer(signal.ITIMER_REAL, 0)
+
+
+def check_prefixed(R, cases, outs):
+    for (td, v, rest), o in zip(cases, outs):
+        x = cc.expand(td)
+        R.evaluations += 1
+        cj = case_json(td, v, rest)
+        exp = cc.canon_unordered(cc.canon(cc.py_norm(x, v)))
+        cls = "in-domain:Array(length-type):prefixed-decode"
+        if o[0] == "rt" and cc.canon_unordered(o[1]) == exp and o[2] == o[3]:
+            R.count("oracle_outcome", "prefixed-decode-ok")
+        elif o[0] == "rt":
+            _fail(R, "decode(count + encode(v)) != v or wrong consumption", cj, [list(o[1])[:3], o[2], o[3]], [list(exp)[:3]], cls)
+        else:
+            _fail(R, "decode(count + encode(v)) raised", cj, cc.CODE_NAMES.get(o[1], o[1]) if len(o) > 1 else o[0], "the values", cls)
 
 
 def domain_check(R, mp, pairs):
@@ -219,6 +257,17 @@ def run_cases(R, mp, triples, thorough, light=False):
             R.count("oracle_type_depth", cc.ty_depth(td))
     outs = cc.run_impl([("rt", td, v, rest) for td, v, rest in orc], fn=cc.oracle_one)
     check_roundtrip(R, orc, outs)
+    # Array(<length type>, T): the documented decode of count + elements
+    pre = []
+    for td, v, kind in triples:
+        if td[0] == "arrp":
+            x = cc.expand(td)
+            if (cc.py_doc_dom(x, v) and cc.py_devs(x, v, b"") == ["Array(length-type)"] and x[3][0] != "bits"
+                    and cc.x_consumes(x[3])):
+                pre.append((td, v, bytes(rng.randrange(256) for _ in range(rng.choice([0, 1, 4])))))
+    if pre:
+        outs = cc.run_impl([("pre", td, v, rest) for td, v, rest in pre], fn=oracle_prefixed)
+        check_prefixed(R, pre, outs)
     # struct: dict vs positional
     sd = []
     for td, v, kind in triples:
@@ -281,6 +330,10 @@ def replay(R, rp):
         R.notes.append("replay file without a failing case: re-running the corpus")
         return run(R)
     td, v, rest = case_from_json(j)
-    outs = cc.run_impl([("rt", td, v, rest)], fn=cc.oracle_one)
-    check_roundtrip(R, [(td, v, rest)], outs)
+    if str(f.get("class", "")).endswith("prefixed-decode"):
+        outs = cc.run_impl([("pre", td, v, rest)], fn=oracle_prefixed)
+        check_prefixed(R, [(td, v, rest)], outs)
+    else:
+        outs = cc.run_impl([("rt", td, v, rest)], fn=cc.oracle_one)
+        check_roundtrip(R, [(td, v, rest)], outs)
     R.case(j, True)
